@@ -409,6 +409,13 @@ fn response_cases() -> Vec<Wire> {
         let mut e2 = e.clone();
         e2.index = n as u64;
         v.push(Wire::ListErr { done: (0..n).map(f).collect(), partial: f(9), err: e2 });
+        // (round 7) the error's command index is a number the server sent; the frames in front of it are the
+        // frames in front of it, whatever that number is
+        for idx in [0u64, n as u64 + 3] {
+            let mut e3 = e.clone();
+            e3.index = idx;
+            v.push(Wire::ListErr { done: (0..n).map(f).collect(), partial: AFrame::default(), err: e3 });
+        }
     }
     v
 }
